@@ -462,11 +462,11 @@ func (r *rewriter) dropUnusedImports() {
 		return true
 	})
 	check := map[string]string{
-		"go.etcd.io/etcd/clientv3":                 "clientv3",
-		"github.com/syndtr/goleveldb/leveldb":      "leveldb",
-		"github.com/tikv/pd/pkg/grpcutil":          "grpcutil",
-		"github.com/pingcap/kvproto/pkg/pdpb":      "pdpb",
-		"time":                                     "time",
+		"go.etcd.io/etcd/clientv3":            "clientv3",
+		"github.com/syndtr/goleveldb/leveldb": "leveldb",
+		"github.com/tikv/pd/pkg/grpcutil":     "grpcutil",
+		"github.com/pingcap/kvproto/pkg/pdpb": "pdpb",
+		"time":                                "time",
 	}
 	for _, d := range r.file.Decls {
 		g, ok := d.(*ast.GenDecl)
